@@ -79,100 +79,350 @@ def r26a(ctx, run):
         raise LookupError("writers found: %s" % sorted(writes))
 
 
+def topo_fn(ctx, name):
+    c = [f for f in ctx.facts.fns if f.crate == "topo" and f.kind == "fn" and strip_generics(f.path).endswith("TopoSort::" + name) and "tests" not in f.path]
+    if len(c) != 1:
+        raise LookupError("topo::TopoSort::%s: %d candidates" % (name, len(c)))
+    return c[0]
+
+
+def mentions_param(ch, name):
+    return any(n.get("kind") == "param" and n.get("name") == name for n in FA.walk_chain(ch))
+
+
+def has_field(ch, field):
+    return any(n.get("kind") == "place" and "." + field in n["proj"] for n in FA.walk_chain(ch))
+
+
+def truth_sides(fn, d, want_true):
+    """labels of switch d that correspond to its boolean operand being `want_true` (handles a leading Not)"""
+    ch = fn.switch_operand(d)
+    neg = False
+    while ch.get("kind") == "un" and ch.get("op") == "Not":
+        neg = not neg
+        ch = ch["of"]
+    t = fn.blocks[d]["t"]
+    vals = list(t.get("vals", []))
+    labels = vals + ["otherwise"] * (len(t["t"]) - len(vals))
+    truthy = want_true != neg
+    out = []
+    for lab in labels:
+        is_false = lab == "0"
+        if truthy != is_false:
+            out.append(lab)
+    return out, ch
+
+
 def r26b(ctx, run):
-    f = ctx.syn.fn("TopoSort::insert_dep", T)
-    c = canon(f.body)
-    m = [x for x in walk(f.body) if x.get("k") == "match" and canon(x["e"]) == "self.top.entry(child)"]
-    good = False
-    if m:
-        tbl = {synq.last_seg(h): canon(b) for h, p, g, b, a in synq.match_table(m[0])}
-        vac = tbl.get("Vacant", "")
-        occ = tbl.get("Occupied", "")
-        good = "dep.parents.insert(parent.clone())" in vac and "e.insert(dep)" in vac and "if !e.into_mut().parents.insert(parent.clone())" in occ and "return" in occ
-    run.check(good, f.site(), "insert_dep: new child records the edge; existing child returns early when the edge already exists", "TopoSort::insert_dep", "edge", f.file, f.ln,
-              "insert_dep must record parent in child's parents and return early (without counting) when the edge already existed")
-    stmts = f.body["s"]
-    last = canon(stmts[-1])
-    inc_ok = last.startswith("self.top.entry(parent).or_insert_with(Dependencies::new).num_children += 1") or ("self.top.entry(parent)" in last and ".num_children += 1" in last)
-    after = bool(m) and stmts[-1]["ln"] > m[0]["ln"]
-    incs = [x for x in walk(f.body) if x.get("k") == "bin" and x["op"] in ("+=", "-=") and canon(x["l"]).endswith("num_children")]
-    run.check(inc_ok and after and len(incs) == 1 and canon(incs[0]["r"]) == "1", f.site(stmts[-1]["ln"]), "insert_dep: exactly one num_children += 1 on the parent, after the edge was newly recorded",
-              "TopoSort::insert_dep", "count", f.file, stmts[-1]["ln"], "the parent's num_children must be incremented by exactly 1, once, and only when a new edge was recorded")
-    r = ctx.syn.fn("TopoSort::remove", T)
-    c = canon(r.body)
-    loop = [x for x in walk(r.body) if x.get("k") == "for"]
-    good = "let result = self.top.shift_remove(child)" in c and len(loop) == 1 and canon(loop[0]["e"]) == "&p.parents" and "if let Some(y) = self.top.get_mut(s)" in canon(loop[0]["b"]) \
-        and "y.num_children -= 1" in canon(loop[0]["b"])
-    decs = [x for x in walk(r.body) if x.get("k") == "bin" and x["op"] in ("+=", "-=") and canon(x["l"]).endswith("num_children")]
-    run.check(good and len(decs) == 1 and canon(decs[0]["r"]) == "1", r.site(), "remove: one num_children -= 1 per recorded parent that is still present", "TopoSort::remove", "count", r.file, r.ln,
-              "remove must take the entry out and decrement exactly the parents recorded on it (each by 1, if still present)")
-    ins = ctx.syn.fn("TopoSort::insert", T)
-    run.check("Dependencies::new()" in canon(ins.body).replace("::<T>", "") and "Entry::Occupied(_) => false" in canon(ins.body), ins.site(), "insert: lone item gets zero counters, existing item untouched",
-              "TopoSort::insert", "lone", ins.file, ins.ln, "insert must not disturb an existing entry")
+    # ---- insert_dep: the parent's counter goes up by exactly one, iff a new edge child->parent was recorded -----------------
+    fn = topo_fn(ctx, "insert_dep")
+    F = "topo::TopoSort::insert_dep"
+    ups = fn.field_updates("num_children")
+    good = len(ups) == 1 and ups[0][2] == "Add" and ups[0][3] == "1"
+    site = "%s:%d" % (fn.file, ups[0][1] if ups else fn.lo)
+    base_ok = False
+    if ups:
+        base = ups[0][4]
+        ent = [n for n in FA.chain_calls(base) if short(n["callee"]) == "entry"]
+        base_ok = bool(ent) and has_field(ent[0]["args"][0], "top") and mentions_param(ent[0]["args"][1], "parent") and not mentions_param(ent[0]["args"][1], "child")
+    run.check(good and base_ok, site, "insert_dep: exactly one `num_children += 1`, on the entry of `parent`", F, "count", fn.file, ups[0][1] if ups else fn.lo,
+              "the parent's num_children must be incremented by exactly 1, once, on top[parent] (updates found: %s)" % [(u[1], u[2], u[3], FA.show_chain(u[4], 5)[:60]) for u in ups])
+    # edge recording: IndexSet::insert(parents-of-child, parent)
+    recs = []
+    for c in fn.calls():
+        if short(c.callee) == "insert" and len(c.args) == 2 and "IndexSet" in c.callee:
+            recv = fn.chain_operand(c.args[0], depth=10)
+            if has_field(recv, "parents") and mentions_param(fn.chain_operand(c.args[1], depth=6), "parent"):
+                recs.append((c, recv))
+    if not recs:
+        raise LookupError("no parents.insert(parent) in insert_dep")
+    upd_bb = ups[0][0] if ups else None
+    good = upd_bb is not None
+    detail = []
+    for c, recv in recs:
+        fresh = any(short(n["callee"]) == "new" and "Dependencies" in n["callee"] for n in FA.chain_calls(recv))
+        on_child = fresh or any(short(n["callee"]) == "entry" and mentions_param(n["args"][1], "child") for n in FA.chain_calls(recv))
+        if not on_child:
+            good = False
+            detail.append("line %d records the edge on an entry that is not the child's" % c.ln)
+        # the result decides: find the switch on this call's result
+        sw = [d for d in range(len(fn.blocks)) if fn.blocks[d]["t"]["k"] == "switch" and any(n.get("kind") == "call" and n.get("bb") == c.bb and n.get("ln") == c.ln
+                                                                                                for n in FA.walk_chain(fn.switch_operand(d) or {}))]
+        if fresh and not sw:
+            continue    # a new entry's parent set is empty: the edge is always new
+        if not sw:
+            good = False
+            detail.append("the result of parents.insert at line %d (was the edge new?) is ignored" % c.ln)
+            continue
+        for d in sw:
+            false_labels, _ = truth_sides(fn, d, False)
+            reach = fn.switch_sides(d, upd_bb) if upd_bb is not None else []
+            if set(false_labels) & set(reach):
+                good = False
+                detail.append("the increment is reachable when parents.insert at line %d returned false (edge already recorded)" % c.ln)
+    # every path to the increment records an edge
+    if upd_bb is not None and fn.can_reach(0, upd_bb, avoid=[c.bb for c, _ in recs]):
+        good = False
+        detail.append("a path reaches the increment without recording the edge in the child's parents")
+    run.check(good, "%s:%d" % (fn.file, recs[0][0].ln), "insert_dep: the increment happens iff a new edge was recorded in the child's `parents` (%d recording sites)" % len(recs), F, "edge", fn.file,
+              recs[0][0].ln, "insert_dep must count an edge exactly when it newly records it: " + "; ".join(detail))
+
+    # ---- remove: one decrement per recorded parent that is still present --------------------------------------------------
+    r = topo_fn(ctx, "remove")
+    R = "topo::TopoSort::remove"
+    rem = [c for c in r.calls() if short(c.callee) in ("shift_remove", "swap_remove", "remove") and c.args and has_field(r.chain_operand(c.args[0], depth=5), "top")
+           and mentions_param(r.chain_operand(c.args[1], depth=5), "child")]
+    ups = r.field_updates("num_children")
+    good = len(rem) == 1 and len(ups) == 1 and ups[0][2] == "Sub" and ups[0][3] == "1"
+    detail = []
+    if good:
+        ubb, uln, _, _, base = ups[0]
+        gm = [n for n in FA.chain_calls(base) if short(n["callee"]) in ("get_mut", "index_mut", "get_index_mut")]
+        lp = [(h, body) for h, body in r.loops() if ubb in body]
+        if not gm or not has_field(gm[0]["args"][0], "top") or not lp:
+            good = False
+            detail.append("the decrement is not applied to top[<each parent>] inside a loop")
+        else:
+            h, body = min(lp, key=lambda hb: len(hb[1]))
+            nxt = [c for c in r.calls_in(body) if short(c.callee) == "next"]
+            src_ok = False
+            for c in nxt:
+                src = r.chain_operand(c.args[0], depth=12)
+                if has_field(src, "parents") and any(short(n["callee"]) == short(rem[0].callee) for n in FA.chain_calls(src)):
+                    src_ok = True
+            if not src_ok:
+                good = False
+                detail.append("the loop does not iterate the removed entry's `parents`")
+            elem_ok = any(short(n["callee"]) == "next" for n in FA.chain_calls(gm[0]["args"][1]))
+            if not elem_ok:
+                good = False
+                detail.append("the entry decremented is not the one named by the loop element")
+            # the loop ends only when the iterator is exhausted
+            for u, v in r.loop_exit_edges(h, body):
+                ch = r.switch_operand(u) if r.blocks[u]["t"]["k"] == "switch" else None
+                if not (ch and ch.get("kind") == "discr" and any(short(n["callee"]) == "next" for n in FA.chain_calls(ch))):
+                    good = False
+                    detail.append("the loop over the parents can be left early (edge bb%d -> bb%d): later parents keep a stale count" % (u, v))
+            # inside an iteration the decrement depends only on the parent still being present
+            for d, ch, sides in r.conditions_of(ubb):
+                if d not in body:
+                    continue
+                names = {short(n["callee"]) for n in FA.chain_calls(ch)}
+                if not (ch.get("kind") == "discr" and names & {"next", "get_mut", "get_index_mut"}):
+                    good = False
+                    detail.append("the decrement is conditional on %s" % FA.show_chain(ch, 4)[:60])
+    run.check(good, "%s:%d" % (r.file, ups[0][1] if ups else r.lo), "remove: takes the entry out and decrements each recorded parent that is still present, exactly once", R, "count", r.file,
+              ups[0][1] if ups else r.lo, "remove must take the entry out and decrement exactly the parents recorded on it (each by 1, if still present): " + "; ".join(detail))
+    # ---- insert: a lone item does not disturb an existing entry --------------------------------------------------------------
+    ins = topo_fn(ctx, "insert")
+    writes = [c for c in ins.calls() if short(c.callee) in ("insert", "insert_full", "or_insert", "or_insert_with", "or_default") and "indexmap" in c.callee]
+    good = True
+    for c in writes:
+        conds = ins.conditions_of(c.bb)
+        vac = any(ch.get("kind") == "discr" and any(short(n["callee"]) == "entry" for n in FA.chain_calls(ch)) for d, ch, sides in conds)
+        newdep = any(short(n["callee"]) == "new" and "Dependencies" in n["callee"] for a in c.args for n in FA.chain_calls(ins.chain_operand(a, depth=6)))
+        if not (vac and newdep) and short(c.callee) == "insert":
+            good = False
+    run.check(good and not ins.field_updates("num_children"), "%s:%d" % (ins.file, ins.lo), "insert: a lone item gets a fresh zero-count entry only when absent; existing entries untouched",
+              "topo::TopoSort::insert", "lone", ins.file, ins.lo, "insert must not disturb an existing entry")
 
 
-def norm_pred(c):
-    return c.replace(" ", "")
+def closure_pred(ctx, parent_fn, call):
+    """(op, constant, field) of the closure passed to an iterator adaptor call: a single comparison of a field with a constant"""
+    F = ctx.facts
+    cl = None
+    for a in call.args:
+        ch = parent_fn.chain_operand(a, depth=4)
+        for n in FA.walk_chain(ch):
+            if n.get("kind") == "agg" and n.get("ak") == "closure":
+                cl = n["path"]
+    if cl is None:
+        return None
+    cf = [f for f in F.fns if f.path == cl]
+    if len(cf) != 1:
+        return None
+    cf = cf[0]
+    rets = [b for b in cf.blocks if b["t"]["k"] == "return"]
+    bins = [(s, bi) for bi, b in enumerate(cf.blocks) for s in b["s"] if s["rv"]["k"] == "bin" and s["p"] == [0]]
+    if len(bins) != 1 or len([b for b in cf.blocks if not b.get("cleanup")]) != 1 or len(rets) != 1:
+        return None
+    ch = cf.chain_rvalue(bins[0][0]["rv"], 6, frozenset())
+    l, r_ = ch["l"], ch["r"]
+    op = ch["op"]
+    if l.get("kind") == "scalar":
+        l, r_ = r_, l
+        op = {"Lt": "Gt", "Gt": "Lt", "Le": "Ge", "Ge": "Le"}.get(op, op)
+    fld = [p for n in FA.walk_chain(l) if n.get("kind") == "place" for p in n["proj"] if p.startswith(".") and not p[1:].isdigit()]
+    return op, (r_.get("value") if r_.get("kind") == "scalar" else None), (fld[-1] if fld else None)
+
+
+ZERO = {("Eq", "0"), ("Le", "0"), ("Lt", "1")}
+NONZERO = {("Ne", "0"), ("Gt", "0"), ("Ge", "1")}
 
 
 def r26c(ctx, run):
     for name in ("peek", "peek_all"):
-        f = ctx.syn.fn("TopoSort::" + name, T)
-        flt = [x for x in synq.mcalls(f.body, "filter")]
-        good = len(flt) == 1 and flt[0]["a"][0]["k"] == "closure" and norm_pred(canon(flt[0]["a"][0]["b"])) in ("(v.num_children==0)", "(0==v.num_children)", "(v.num_children<1)")
-        run.check(good, f.site(), "%s offers exactly the entries with num_children == 0" % name, "TopoSort::" + name, "ready", f.file, f.ln,
-                  "%s must filter on num_children == 0; found %s" % (name, canon(flt[0]["a"][0]["b"]) if flt else None))
-        run.check(canon(flt[0]["r"]) == "self.top.iter()" if flt else False, f.site(), "%s scans the whole table" % name, "TopoSort::" + name, "scan", f.file, f.ln, "%s must scan self.top" % name)
-    pa = ctx.syn.fn("TopoSort::peek_all", T)
-    iff = [x for x in walk(pa.body) if x.get("k") == "if"]
-    good = len(iff) == 1 and norm_pred(canon(iff[0]["c"])) in ("(!self.is_empty()&&result.is_empty())", "(result.is_empty()&&!self.is_empty())") and "Err(CycleErr)" in canon(iff[0]["t"]) and "Ok(result)" in canon(iff[0]["e"])
-    run.check(good, pa.site(), "peek_all: Err(CycleErr) iff pending work exists and nothing is ready", "TopoSort::peek_all", "cycle", pa.file, pa.ln, "peek_all must report a cycle exactly when the table is non-empty and no entry is ready")
-    ic = ctx.syn.fn("TopoSort::in_cycle", T)
-    c = norm_pred(canon(ic.body))
-    good = c in ("{(!self.is_empty()&&self.top.values().all(|v|(v.num_children!=0)))}", "{(!self.is_empty()&&self.top.values().all(|v|(v.num_children>0)))}")
-    run.check(good, ic.site(), "in_cycle: non-empty and every entry still waits", "TopoSort::in_cycle", "pred", ic.file, ic.ln, "in_cycle must be `!is_empty() && all(num_children != 0)`; found %s" % canon(ic.body))
+        f = topo_fn(ctx, name)
+        flt = [c for c in f.calls() if short(c.callee) == "filter"]
+        pred = closure_pred(ctx, f, flt[0]) if len(flt) == 1 else None
+        good = pred is not None and (pred[0], pred[1]) in ZERO and pred[2] == ".num_children"
+        run.check(good, "%s:%d" % (f.file, f.lo), "%s offers exactly the entries with num_children == 0 (%s)" % (name, pred), "topo::TopoSort::" + name, "ready", f.file, f.lo,
+                  "%s must filter on num_children == 0; found %s" % (name, pred))
+        src = f.chain_operand(flt[0].args[0], depth=6) if flt else {}
+        scans = [n for n in FA.chain_calls(src) if short(n["callee"]) in ("iter", "into_iter") and has_field(n["args"][0], "top")]
+        sliced = [n for n in FA.chain_calls(src) if short(n["callee"]) in ("skip", "take", "step_by", "skip_while", "take_while")]
+        run.check(bool(scans) and not sliced, "%s:%d" % (f.file, f.lo), "%s scans the whole table" % name, "topo::TopoSort::" + name, "scan", f.file, f.lo, "%s must scan all of self.top" % name)
+    # peek_all: Err(CycleErr) iff the table is non-empty and nothing is ready
+    pa = topo_fn(ctx, "peek_all")
+    errs = [(bi, s) for bi, b in enumerate(pa.blocks) if not b.get("cleanup") for s in b["s"] if s["rv"]["k"] == "agg" and s["rv"]["path"].endswith("Result::Err")]
+    good = len(errs) == 1
+    if good:
+        conds = pa.conditions_of(errs[0][0])
+        seen = {}
+        for d, ch, sides in conds:
+            for n in FA.chain_calls(ch):
+                nm = n["callee"]
+                t_sides, _ = truth_sides(pa, d, True)
+                seen[("self" if "TopoSort" in nm else "result") + ":" + short(nm)] = set(sides) <= set(t_sides)
+        # reached when TopoSort::is_empty() is false and Vec::is_empty() is true
+        good = seen.get("self:is_empty") is False and seen.get("result:is_empty") is True and len(conds) == 2
+    run.check(good, "%s:%d" % (pa.file, errs[0][1]["ln"] if errs else pa.lo), "peek_all: Err(CycleErr) iff pending work exists and nothing is ready", "topo::TopoSort::peek_all", "cycle", pa.file,
+              errs[0][1]["ln"] if errs else pa.lo, "peek_all must report a cycle exactly when the table is non-empty and no entry is ready")
+    # in_cycle: non-empty and every entry still waits
+    ic = topo_fn(ctx, "in_cycle")
+    alls = [c for c in ic.calls() if short(c.callee) == "all"]
+    pred = closure_pred(ctx, ic, alls[0]) if len(alls) == 1 else None
+    good = pred is not None and (pred[0], pred[1]) in NONZERO and pred[2] == ".num_children"
+    if good:
+        conds = ic.conditions_of(alls[0].bb)
+        ok_c = False
+        for d, ch, sides in conds:
+            if any(short(n["callee"]) == "is_empty" for n in FA.chain_calls(ch)):
+                f_sides, _ = truth_sides(ic, d, False)
+                ok_c = set(sides) <= set(f_sides)
+        src = ic.chain_operand(alls[0].args[0], depth=6)
+        whole = any(short(n["callee"]) in ("values", "iter") and has_field(n["args"][0], "top") for n in FA.chain_calls(src))
+        # when empty, the answer is false
+        rets_false = any(s["p"] == [0] and s["rv"]["k"] == "use" and s["rv"]["o"].get("k", {}).get("int") == "false" for b in ic.blocks for s in b["s"])
+        good = ok_c and whole and rets_false
+    run.check(good, "%s:%d" % (ic.file, ic.lo), "in_cycle: non-empty and every entry still waits (%s)" % (pred,), "topo::TopoSort::in_cycle", "pred", ic.file, ic.lo,
+              "in_cycle must be `!is_empty() && all(num_children != 0)`; found predicate %s" % (pred,))
     for name in ("pop_cyclic", "pop_all_cyclic", "peek_cyclic", "peek_all_cyclic"):
-        f = ctx.syn.fn("TopoSort::" + name, T)
-        iff = [x for x in walk(f.body) if x.get("k") == "if"]
-        good = len(iff) == 1 and canon(iff[0]["c"]) == "self.in_cycle()" and canon(iff[0]["e"]).strip("{ }") == "None"
-        run.check(good, f.site(), "%s acts only when in_cycle()" % name, "TopoSort::" + name, "guard", f.file, f.ln, "%s must do nothing unless in_cycle()" % name)
-    ie = ctx.syn.fn("TopoSort::is_empty", T)
-    run.check(canon(ie.body).strip("{ }") == "self.top.is_empty()", ie.site(), "is_empty = table empty", "TopoSort::is_empty", "pred", ie.file, ie.ln, "is_empty must be self.top.is_empty()")
+        f = topo_fn(ctx, name)
+        somes = [(bi, s) for bi, b in enumerate(f.blocks) if not b.get("cleanup") for s in b["s"] if s["rv"]["k"] == "agg" and s["rv"]["path"].endswith("Option::Some") and s["p"] == [0]]
+        acts = [c for c in f.calls() if short(c.callee) not in ("in_cycle",)]
+        good = True
+        sites_ = [bi for bi, s in somes] + [c.bb for c in acts]
+        if not sites_:
+            good = False
+        for bi in sites_:
+            conds = f.conditions_of(bi)
+            guarded = False
+            for d, ch, sides in conds:
+                if any(short(n["callee"]) == "in_cycle" for n in FA.chain_calls(ch)):
+                    t_sides, _ = truth_sides(f, d, True)
+                    guarded = set(sides) <= set(t_sides)
+            if not guarded:
+                good = False
+        run.check(good, "%s:%d" % (f.file, f.lo), "%s acts only when in_cycle()" % name, "topo::TopoSort::" + name, "guard", f.file, f.lo, "%s must do nothing unless in_cycle()" % name)
+    ie = topo_fn(ctx, "is_empty")
+    cs = [c for c in ie.calls()]
+    good = len(cs) == 1 and short(cs[0].callee) == "is_empty" and has_field(ie.chain_operand(cs[0].args[0], depth=4), "top") and \
+        any(s["p"] == [0] for b in ie.blocks for s in b["s"]) is False
+    run.check(len(cs) == 1 and short(cs[0].callee) == "is_empty" and has_field(ie.chain_operand(cs[0].args[0], depth=4), "top"), "%s:%d" % (ie.file, ie.lo), "is_empty = table empty",
+              "topo::TopoSort::is_empty", "pred", ie.file, ie.lo, "is_empty must be self.top.is_empty()")
 
 
 def r26d(ctx, run):
-    f = ctx.syn.fn("InferenceCtx::finish", "hir_ty/src/lib.rs")
-    loops = [x for x in walk(f.body) if x.get("k") == "loop"]
-    if len(loops) != 1:
-        raise LookupError("scheduling loop in finish")
-    lp = loops[0]
-    F = "InferenceCtx::finish"
-    lv = [s for s in lp["b"]["s"] if s["k"] == "local" and canon(s["p"]) == "leaves"]
-    good = False
-    if lv and lv[0]["init"].get("k") == "match" and canon(lv[0]["init"]["e"]) == "self.to_infer.peek_all()":
-        tbl = {synq.last_seg(h): canon(b) for h, p, g, b, a in synq.match_table(lv[0]["init"])}
-        good = "leaves.into_iter().cloned().collect_vec()" in tbl.get("Ok", "") and "self.to_infer.peek_all_cyclic().unwrap()" in tbl.get("Err", "")
-    run.check(good, f.site(lp["ln"]), "round: leaves = peek_all(), or peek_all_cyclic() when a cycle is reported", F, "leaves", f.file, lp["ln"],
-              "each round must take the ready items from peek_all and, only on Err, all items from peek_all_cyclic")
-    inner = [x for x in walk(lp["b"]) if x.get("k") == "for" and canon(x["e"]) == "leaves"]
-    good = False
-    if inner:
-        m = [x for x in walk(inner[0]["b"]) if x.get("k") == "match" and canon(x["e"]) == "self.infer(inferrable)"]
-        if m:
-            tbl = {synq.last_seg(h): canon(b) for h, p, g, b, a in synq.match_table(m[0])}
-            good = "self.to_infer.remove(&inferrable)" in tbl.get("Ok", "") and "insert_deps" not in tbl.get("Ok", "") and "self.to_infer.insert_deps(inferrable, deps)" in tbl.get("Err", "") \
-                and "remove(" not in tbl.get("Err", "")
-    run.check(good, f.site(inner[0]["ln"] if inner else lp["ln"]), "each offered item: Ok => remove(item); Err(deps) => insert_deps(item, deps)", F, "protocol", f.file,
-              inner[0]["ln"] if inner else lp["ln"], "a completed item must be removed and an item with unmet dependencies must register exactly those dependencies")
-    tail = lp["b"]["s"][-1]
-    good = tail["k"] == "expr" and tail["e"].get("k") == "if" and canon(tail["e"]["c"]) == "self.to_infer.is_empty()" and "break" in canon(tail["e"]["t"])
-    brks = [x for x in walk(lp["b"]) if x.get("k") == "break" and x.get("label") is None]
-    inner_breaks = [x for x in brks if not any(x is y for y in walk(tail))]
-    inner_loops = [x for x in walk(lp["b"]) if x.get("k") in ("for", "while", "loop")]
-    stray = [x for x in inner_breaks if not any(any(x is y for y in walk(il["b"])) for il in inner_loops)]
-    run.check(good and not stray, f.site(tail["ln"]), "the loop ends iff the schedule is empty", F, "exit", f.file, tail["ln"], "the scheduling loop must end exactly when to_infer is empty")
-    ext = [x for x in synq.mcalls(f.body, "extend") if canon(x["r"]) == "self.to_infer"]
-    run.check(len(ext) == 1 and ext[0]["ln"] < lp["ln"], f.site(), "the schedule is seeded once, before the loop", F, "seed", f.file, f.ln, "to_infer.extend must be called once before the loop")
+    F = ctx.facts
+    cands = [f for f in F.fns if f.crate == "hir_ty" and f.kind == "fn" and strip_generics(f.path).endswith("InferenceCtx::finish")]
+    if len(cands) != 1:
+        raise LookupError("InferenceCtx::finish")
+    fn = cands[0]
+    FN = "hir_ty::InferenceCtx::finish"
+
+    def topo_calls(name):
+        return [c for c in fn.calls() if short(c.callee) == name and "topo::TopoSort" in c.callee]
+    pa, pac, rm, idp, emp, ext = (topo_calls(n) for n in ("peek_all", "peek_all_cyclic", "remove", "insert_deps", "is_empty", "extend"))
+    infer = [c for c in fn.calls() if short(c.callee) == "infer" and "InferenceCtx" in c.callee]
+    if not (len(pa) == 1 and len(pac) == 1 and rm and idp and emp and ext and len(infer) == 1):
+        raise LookupError("scheduler calls in finish: peek_all=%d peek_all_cyclic=%d remove=%d insert_deps=%d is_empty=%d extend=%d infer=%d"
+                          % (len(pa), len(pac), len(rm), len(idp), len(emp), len(ext), len(infer)))
+
+    def cond_on(c_bb, callee_bb, callee_name):
+        """sides on which block c_bb depends on the discriminant of the result of the call named callee_name"""
+        for d, ch, sides in fn.conditions_of(c_bb, limit=12):
+            if ch.get("kind") == "discr" and any(short(n["callee"]) == callee_name and n.get("bb") == callee_bb for n in FA.chain_calls(ch)):
+                return sides
+        return None
+    # leaves: peek_all_cyclic only on the Err side of peek_all
+    s = cond_on(pac[0].bb, pa[0].bb, "peek_all")
+    run.check(s == ["1"] or s == ["otherwise"] and False or s == ["1"], pac[0].site(), "round: leaves = peek_all(), or peek_all_cyclic() only when peek_all reports a cycle (Err)", FN, "leaves",
+              pac[0].file, pac[0].ln, "each round must take the ready items from peek_all and, only on Err, all items from peek_all_cyclic (peek_all_cyclic depends on sides %s)" % s)
+    good = True
+    detail = []
+
+    def extra_conditions(c):
+        """conditions, inside the per-item loop, other than the outcome of infer and the iteration itself"""
+        inner = [(h, b) for h, b in fn.loops() if c.bb in b and infer[0].bb in b]
+        if not inner:
+            return ["not in the per-item loop"]
+        h, b = min(inner, key=lambda hb: len(hb[1]))
+        out = []
+        for d, ch, sides in fn.conditions_of(c.bb, limit=12):
+            if d not in b:
+                continue
+            names = {short(n["callee"]) for n in FA.chain_calls(ch)}
+            if ch.get("kind") == "discr" and names & {"infer", "next"}:
+                continue
+            out.append(FA.show_chain(ch, 4)[:60])
+        return out
+    for c in rm + idp:
+        ex = extra_conditions(c)
+        if ex:
+            good = False
+            detail.append("%s at line %d additionally depends on %s" % (short(c.callee), c.ln, ex))
+    for c in rm:
+        s = cond_on(c.bb, infer[0].bb, "infer")
+        if s != ["0"]:
+            good = False
+            detail.append("remove at line %d is not on the Ok side of infer (sides %s)" % (c.ln, s))
+    for c in idp:
+        s = cond_on(c.bb, infer[0].bb, "infer")
+        if s != ["1"]:
+            good = False
+            detail.append("insert_deps at line %d is not on the Err side of infer (sides %s)" % (c.ln, s))
+        deps = fn.chain_operand(c.args[2], depth=10)
+        if not any(short(n["callee"]) == "infer" for n in FA.chain_calls(deps)):
+            good = False
+            detail.append("insert_deps at line %d does not register the dependencies infer reported" % c.ln)
+    run.check(good, infer[0].site(), "each offered item: Ok => remove(item); Err(deps) => insert_deps(item, deps)", FN, "protocol", infer[0].file, infer[0].ln,
+              "a completed item must be removed and an item with unmet dependencies must register exactly those dependencies: " + "; ".join(detail))
+    # the scheduling loop ends iff the schedule is empty
+    lp = [(h, body) for h, body in fn.loops() if pa[0].bb in body]
+    if not lp:
+        raise LookupError("scheduling loop")
+    h, body = max(lp, key=lambda hb: len(hb[1]))
+    good = True
+    n_exit = 0
+    for u, v in fn.loop_exit_edges(h, body):
+        ch = fn.switch_operand(u) if fn.blocks[u]["t"]["k"] == "switch" else None
+        if ch is not None and any(short(n["callee"]) == "is_empty" and "topo::TopoSort" in n["callee"] for n in FA.chain_calls(ch)):
+            t_sides, _ = truth_sides(fn, u, True)
+            labs = [lab for lab, tgt in zip(list(fn.blocks[u]["t"].get("vals", [])) + ["otherwise"], fn.blocks[u]["t"]["t"]) if tgt == v]
+            if set(labs) <= set(t_sides):
+                n_exit += 1
+                continue
+        if fn.blocks[u]["t"]["k"] == "call" and not fn.blocks[u]["t"]["t"]:
+            continue
+        # exits into diverging code (panics) are not normal exits
+        if all(fn.blocks[x]["t"]["k"] != "return" for x in fn.reachable_from(v)):
+            continue
+        good = False
+    run.check(good and n_exit >= 1, "%s:%d" % (fn.file, emp[0].ln), "the scheduling loop ends iff to_infer.is_empty()", FN, "exit", fn.file, emp[0].ln,
+              "the scheduling loop must end exactly when to_infer is empty")
+    run.check(all(fn.dominates(e.bb, h) for e in ext) and len(ext) == 1, ext[0].site(), "the schedule is seeded once, before the loop", FN, "seed", ext[0].file, ext[0].ln,
+              "to_infer.extend must be called once before the loop")
 
 
 def rules(ctx):
